@@ -21,6 +21,7 @@ RULE = (
     "sqrt(n_nonzero*tol)/scale (derivation in DESIGN C10); NaN set = independent three-valued reference of the "
     "documented filters (cut-off ties free); finite weights > 0; stats['converged'] == (var < tol). Non-trivial = "
     "converged, >=3 retained bins, >=1 bin masked by a filter, input not already balanced. Distinct by sha1."
+    " Also: options left out of the call (documented defaults, incl. the mode flags) with the reference using the defaults; real-valued counts (matrix scaled by 1/64 or 1/4); matrices with only cis or only trans data balanced in the mode left with nothing; an all-bin-filters-off preset; stats['divisive_weights'] is False; CLI: --force over a column stored by a much stricter earlier run, options left off the command line."
 )
 ASSUMPTIONS = [
     "'no remaining data' is read at the granularity the code implements: a whole matrix / chromosome without a non-zero marginal (DESIGN section 4 rule 7)",
